@@ -44,6 +44,7 @@ var c12PerDay = [][]string{
 	{"reg"}, {"reg", "--internal-template-name", "left-aligned"}, {"reg", "--use-old-reg-reporter"},
 	{"csv", "log"}, {"print"}, {"reg", "-f", "r"}, {"reg", "-s", "cal"}, {"reg", "-s", "fat", "--csv"},
 	{"reg", "-e", "2021/01/25"}, {"print", "-b", "2021/01/25", "-e", "2021/01/26"},
+	{"reg", "-s", "k/r1"}, // X that is a recipe of the book and a logged food at once
 }
 var c12Period = [][]string{{"bal"}, {"report", "totals"}, {"report", "quantity"}, {"bal", "-s", "cal"}, {"reg", "-s", "cal", "-g"}, {"bal", "-e", "2021/01/25"}}
 
